@@ -31,7 +31,12 @@ out = ["", "--------------------------------------------------------------------
        "tests still pass. I confirmed all of that in a scratch worktree (`harness/seedtool.py`), ran the registered quick checks against the",
        "patched tree, and filed the change under `seeded/<id>/` (patch.diff, demo, meta.json with what was run). Changes a check first",
        "missed led to the strengthening recorded in the `docs/Cxx.md` of that property (new generators, scenarios, regenerated tables or",
-       "theorems); the table shows the state after strengthening. `_a/_b` = round 1, `_a2/_b2` = round 2 (asked for mechanisms different from round 1).", "",
+       "theorems); the table shows the state after strengthening. `_a/_b` = round 1, `_a2/_b2` = round 2 (asked for mechanisms different from round 1),",
+       "`_a3/_b3`, `_a4/_b4` = rounds 3 and 4; `_a5/_b5` = round 5, written against the FINAL tree (after all repairs) and run once, with no strengthening afterwards:",
+       "37 of its 40 changes are reported by the check of the property they were written for, the other three by the check of the property whose code they touch (C01_b5: the",
+       "CIGAR match set, by C16; C03_b5: the id parser, by C17; C09_a5: the merger's file index, by C05 and C12). The two changes no check reports (C07_a, C18_a) are shown",
+       "to be behaviour-neutral on the current tree (their own demos pass with the patch applied; `status` in their meta.json). Patches whose context moved under the",
+       "repair commits were rebased by an agent that saw only the patch, the demo and the summary (`patch.orig.diff` keeps the original).", "",
        "| id | breaks | change | needs to manifest | caught by (quick tier) | first failure kind | quiet checks among those run |",
        "|---|---|---|---|---|---|---|"]
 for r in rows:
